@@ -536,7 +536,7 @@ func c11Scenarios(tier string) []Scenario {
 func init() {
 	register(&Property{ID: "C11", Level: "model_checking",
 		Technique: "stateless model checking of the real server under a controlled scheduler; leaks decided at the final quiescent state",
-		Rule:      "every schedule with at most P preemptions from the disconnect onwards, per scenario: every prefix of a history that leaves fids attached/walked/open/created/clunked x set of requests parked in the implementation x every release order x disconnect at a frame boundary / mid-frame / right after a request / while the server's writer is blocked inside Write (client stopped reading; also after the client half-closed, or sent a Tversion meanwhile; an implementation slow inside ConnClosed / FidDestroy) x Maxpend 0/2 x dialect, with a bystander connection; plus sequential histories in which a request is held on a fid across its clunk / remove and the re-binding of its number, then completes, then the client disconnects; 9 histories on the real Ufs after which no descriptor may refer into the exported tree; distinct = distinct per-object operation orders",
+		Rule:      "every schedule with at most P preemptions from the disconnect onwards, per scenario: every prefix of a history that leaves fids attached/walked/open/created/clunked x set of requests parked in the implementation x every release order x disconnect at a frame boundary / mid-frame / right after a request / while the server's writer is blocked inside Write (client stopped reading; also after the client half-closed, or sent a Tversion meanwhile; an implementation slow inside ConnClosed / FidDestroy) x Maxpend 0/2 x dialect, with a bystander connection; plus sequential histories in which a request is held on a fid across its clunk / remove and the re-binding of its number, then completes, then the client disconnects; 9 histories on the real Ufs after which no descriptor may refer into the exported tree; distinct = distinct per-object operation orders ; implementations with AuthOps: an authentication fid idle, in an attach, or being read at the disconnect",
 		Assumptions: []string{"code between two synchronisation operations is atomic (race-free executions)", "a client disconnect is the client end closing: the server reads EOF after draining, its writes fail", "the Ufs file-descriptor clause is checked by sequential histories on the real Ufs with /proc/self/fd as the oracle (a garbage collection in between could only hide a leak, never invent one)"},
 		Scenarios:   c11Scenarios, QuickS: 180, ThoroughS: 1500})
 }
